@@ -140,6 +140,12 @@ func cmdCheck(args []string) int {
 		return 2
 	}
 	loadSecs := time.Since(start).Seconds()
+	if len(eng.broken) > 0 {
+		for _, m := range eng.broken {
+			fmt.Println("BROKEN:", m)
+		}
+		return 2
+	}
 
 	// select units
 	var units []*FuncUnit
